@@ -23,9 +23,9 @@ Definition vm_H (tbl : list (N * nat)) (c : list N) : N :=
 Definition vm_id (_ : nat) (l : list entry) : list entry := l.
 Section VM.
 Variable H : list N -> N.
-Notation RUNOP := (run_op H vm_id src_inplace src_unlink_first).
-Notation STEPS := (op_steps H vm_id src_inplace src_unlink_first).
-Notation HOP := (run_hop H vm_id src_inplace src_unlink_first).
+Notation RUNOP := (run_op H vm_id src_inplace src_unlink_first true).
+Notation STEPS := (op_steps H vm_id src_inplace src_unlink_first true).
+Notation HOP := (run_hop H vm_id src_inplace src_unlink_first true).
 Fixpoint vm_crash_call (s : st) (ops : list op) (j : nat) : st :=
   match ops with
   | [] => HOP s (Crashed SaveIndex 0)
@@ -34,12 +34,12 @@ Fixpoint vm_crash_call (s : st) (ops : list op) (j : nat) : st :=
   end.
 Definition vm_hist (hist : list (list op * option nat)) : st :=
   fold_left (fun s c => match snd c with
-                        | None => run H vm_id src_inplace src_unlink_first (fst c) s
+                        | None => run H vm_id src_inplace src_unlink_first true (fst c) s
                         | Some j => vm_crash_call s (fst c) j
                         end) hist init.
 Definition vm_view (hist : list (list op * option nat)) (fin : list op) (j : nat) (ids : list N) (expect : list entry) :=
   let s := vm_hist hist in
-  let fsk := crash_seq H vm_id src_inplace src_unlink_first s fin j in
+  let fsk := crash_seq H vm_id src_inplace src_unlink_first true s fin j in
   (layout_okb fsk,
    map (fun d => match files fsk (FBlob d) with
                  | Some f => Some (length (fcontent f), fro f) | None => None end) ids,
@@ -55,10 +55,15 @@ def _c10_vm_call(toks, blobs):
     n = {b[0]: b[1] for b in blobs}
     man = {b[0]: b[2] for b in blobs}
     k = toks[0]
+    if k == "push" and man[int(toks[1])] == 2:
+        # undecodable manifest: stored, unindexable, removed again (same translation as ml/c10_main.ml)
+        d = int(toks[1]); return ["Push %d (vm_good %d %d) false" % (d, d, n[d]), "Delete %d" % d]
+    if k == "tag" and man[int(toks[1])] == 2:
+        return ["Untag %d" % (900000000 + int(toks[1]))]
     if k == "push":
-        d = int(toks[1]); return ["Push %d (vm_good %d %d) %s" % (d, d, n[d], "true" if man[d] else "false")]
+        d = int(toks[1]); return ["Push %d (vm_good %d %d) %s" % (d, d, n[d], "true" if man[d] == 1 else "false")]
     if k == "pushbad":
-        d = int(toks[1]); return ["Push %d (vm_bad %d %d) %s" % (d, d, n[d], "true" if man[d] else "false")]
+        d = int(toks[1]); return ["Push %d (vm_bad %d %d) %s" % (d, d, n[d], "true" if man[d] == 1 else "false")]
     if k == "tag":
         return ["Tag %s %s" % (toks[1], toks[2])]
     if k == "untag":
@@ -80,10 +85,10 @@ def _c10_vm_call(toks, blobs):
 
 def _c10_vm_goal(case, out):
     p = case.split(" ")
-    if p[0] != "K" or p[2].endswith("final=init") or "MODEL-NOT" in out:
+    if p[0] != "K" or p[2].endswith("final=init") or "MODEL-NOT" in out or "autosave=0" in p[2]:
         return None
     j = int(p[1])
-    f = dict(x.split("=", 1) for x in p[2].split(";"))
+    f = dict(x.split("=", 1) for x in p[2].split(";") if "=" in x)
     blobs = [tuple(int(y) for y in x.split(":")) for x in f["blobs"].split(",") if x]
     hist = []
     for it in [x for x in f["hist"].split(",") if x]:
@@ -172,11 +177,13 @@ CONFIG = {
     "timeout_thorough": 3000,
     "assumptions": [
         "kernel file-system semantics are modelled, not verified: rename(2) is atomic, a completed system call's effect survives the death of the process (page cache), a process killed at the entry of a system call has not executed it; power loss / fsync is outside the property",
-        "store configuration: AutoSaveIndex = true (default); AutoGC on or off. Delete with AutoGC and GC are modelled as one call that performs a LIST of primitive operations in a row (plain deletes; Forget = drop digest references outside the live set + saveIndex): which nodes a cascade or a sweep visits, and in which order, is C09's subject -- the theorem C10_crash_safe_composite holds for every list, and the harness reads the list off the recorded run (unlink order); Go's map order makes some cascades nondeterministic: a kill run whose order differs from the recorded one is judged by the oracle only (counted cascade-order-differs-unjudged)",
-        "ground truth of scripts with GC / AutoGC: the blob set and tag map before and after the interrupted call are observed on disk (killed before its first system call / completed run) instead of simulated; plain scripts keep the generator's simulator",
+        "store configuration: AutoSaveIndex is a parameter of the model (autosave): every positive theorem is stated for the default true; for false the property is refuted (C10_crash_safe_refuted_autosave_off) and recorded as known finding autosave-off-index-dangling; scripts with AutoSaveIndex off are generated and compared with the model, the oracle judges them against the tag map of the last SaveIndex. AutoGC on or off (also on the plain universe). Delete with AutoGC and GC are modelled as one call that performs a LIST of primitive operations in a row (plain deletes; Forget = drop digest references outside the live set + saveIndex): which nodes a cascade or a sweep visits, and in which order, is C09's subject -- C10_crash_safe_composite holds for every list, the harness reads the list off the recorded run (unlink order); C10_gc_crash_safe states GC with bare removals under the explicit hypothesis 'no swept blob is live or carries a reference name'. Go's map order makes some cascades nondeterministic: a kill run whose order differs from the recorded one is judged by the oracle only (counted cascade-order-differs-unjudged, floor 10 %)",
+        "ground truth of scripts with GC / AutoGC: the blob set, tag map and index entry set before and after the interrupted call are observed on disk (killed before its first system call / completed run); on the universe with referrers an independent reference (mark phase of GC, survival of everything a tagged manifest reaches, tags of other blobs untouched) judges the completed call (gc-removed-live, gc-kept-garbage, gc-changed-tags, cascade-removed-tag, cascade-removed-live); plain scripts use the generator's simulator (blobs, tags, index entries incl. digest-only ones)",
+        "coverage floors (harness exits non-zero = layer R failure): kills, earlier crashes, GC/init/reopen/cascade finals, cuts inside multi-write pushes, AutoSaveIndex-off scripts; more than 5 % of the injected kills missing their window or more than 10 % unjudged kill cases fail the run",
         "digest-and-size verification (content.NewVerifyReader, SHA-256) is the Section variable H: a content c matches the name d iff H c = d; no property of H is assumed",
         "encoding/json of index.json / oci-layout is abstracted: a file holds the marshalled entry list as one write unit and parses back to it; Go's map iteration order in saveIndex is the Section variable shuffle with hypothesis In e (shuffle c l) <-> In e l",
-        "one descriptor per digest (the generator's universe); references are never digest strings; manifests are well-formed JSON (graph.Index succeeds)",
+        "descriptors: Tag/Delete are also generated with a digest+size-only descriptor (MediaType \"\") of the same blob; the model identifies a blob by its digest (after fix 89e7351 so does Store.delete). A descriptor whose media type LIES about the content (a layer tagged as a manifest) is a caller inconsistency outside the quantifier; since db2ff94 Tag refuses it. References are never digest strings",
+        "manifests that do not decode are generated (blob kind badmanifest): the model has no notion of decodability; the driver translates Push of such content into the composite [Push bytes; Delete] (stored, unindexable, removed again) and Tag into a refused call -- this translation is part of the trusted driver, the composite theorem covers the resulting step lists; 'oci.New succeeds' includes decoding every indexed manifest only in the oracle (real oci.New), not in the Coq predicate index_ok",
         "write(2) is modelled as all-or-nothing at system-call granularity (the process is killed at system-call entries); C10_no_in_place_write shows that only temporaries are ever written, so torn writes cannot reach a file a reader looks at",
         "oci.New on an existing layout is modelled as: no change on disk, tag resolver := loadIndex(index.json) (Model reopen/load); graph.IndexAll during loading is not modelled (it only reads)",
         "crash points = entries of the file-system system calls (strace trace set in harness/crashkit10/trace.go) of the thread running the operation; other system calls (futex, mmap, signals) do not change the directory",
@@ -187,7 +194,7 @@ CONFIG = {
         "strace 6.1 fault injection (-e inject=<syscall>:signal=KILL:when=<n>) and its trace output; the child runs with GOMAXPROCS=1 and the main goroutine locked to the first thread; the actual kill point is re-read from the trace of the killed run",
     ],
     "level_text": "Coq theorem over every history of completed Push/Tag/Untag/Delete/SaveIndex operations, every interrupted operation and every cut of its file-system micro-step list (invariant proof, any verification function, any map iteration order): layout valid, every blob file complete and matching its name, index.json parses and names only existing blobs, index.json / tag mapping is the one before or the one after, no completed effect lost; the same after any number of earlier crashes each followed by oci.New on what was left (tag resolver reloaded from index.json, leftover temporaries in place); completed histories refine the sequential specification of the API; no file a reader looks at is ever written in place (write granularity irrelevant); the pre-repair in-place index write and the swapped Delete order are refuted by witnesses. Delete with AutoGC and GC: every cut of a call made of any list of primitives is a crash state of one primitive between two quiescent states of the call (C10_crash_safe_composite), after any earlier crashes; a crash during the first oci.New is repaired by the next one (C10_init_restartable). The orders the proofs depend on (temp+rename writes of index.json and oci-layout, index before unlink, GC: save before sweep) are re-read from the Go source on every run (translator kind callseq) and configure the model; the thorough tier re-evaluates a sample of kill cases inside Coq with vm_compute. The model is tied to the code by killing a real child process at every system call of the interrupted operation (strace inject) and comparing the directory with the model after the same number of micro-steps, by comparing the recorded system-call script with the model's micro-step list, and by an independent oracle (oci.New + raw readers + generator ground truth)",
-    "level_note": "full for AutoSaveIndex=true and the operations Push/Tag/Untag/Delete/SaveIndex; Delete-with-AutoGC and GC covered at the level 'any list of primitives' (what the cascade/sweep visits is read off the run; exactness is C09); kernel semantics (atomic rename, no loss at process death) modelled, not verified; JSON encoding and SHA-256 abstracted",
+    "level_note": "theorems: full for AutoSaveIndex=true and Push/Tag/Untag/Delete/SaveIndex incl. histories with earlier crashes; Delete-with-AutoGC and GC at the level 'any list of primitives' plus C10_gc_crash_safe / C10_cascade_* under explicit hypotheses that the harness checks on every recorded call (what a cascade or sweep visits is C09). Oracle-only clauses: 'the directory can be opened again' beyond parsing (decoding of every indexed manifest: real oci.New); 'effects of completed operations are present' after EARLIER CRASHES (theorem C10_completed_effects covers crash-free histories; after crashes only Recoverable relative to the model's own states + the oracle's ground truth of blobs, tags and index entries); AutoSaveIndex=false is refuted and a known finding; kernel semantics (atomic rename, no loss at process death) modelled, not verified; JSON encoding and SHA-2 abstracted; callseq items tie source ORDER, not control flow (a changed condition is seen by the correspondence, not by T)",
     "technique": "machine-checked proof in Coq (invariant over file-system micro-steps, every cut of every operation after every history) + model/implementation correspondence by real SIGKILL at every system-call boundary (strace) + independent oracle",
     "explanation": "theorems over all histories/operations/cuts about the micro-step model of content/oci (Store.Push/Tag/Untag/Delete/SaveIndex, Storage.Push/ingest/Delete, writeIndexFile); each run records the system calls of scripted operations on a real oci.Store in a child process, kills the child before every system call of the final operation, and compares directory, script and results with the extracted model; the oracle reopens the killed directory with oci.New and checks blobs, index entries, tag mapping (before/after) and completed effects against the generator's ground truth",
 }
